@@ -6,12 +6,12 @@ E == Rec[l]
 Matches(x, r) == \A k \in DOMAIN x : k \in DOMAIN r /\ r[k] = x[k]
 Is(k) == l <= Len(Rec) /\ E.e = k /\ l' = l + 1
 TInit == InitWith([min |-> 1, initial |-> 1, max |-> 1]) /\ ev = [e |-> "init"] /\ l = 1
-TReset == Is("reset") /\ Reset([min |-> E.cfg.min, initial |-> E.cfg.initial, max |-> E.cfg.max])
+TReset == Is("reset") /\ Reset([min |-> E.cfg.min, initial |-> E.cfg.initial, max |-> E.cfg.max, two |-> (IF "two" \in DOMAIN E.cfg THEN E.cfg.two ELSE 0)])
 TCreate == Is("create") /\ Create(E.c) /\ Matches(ev', E)
 TPoll == Is("poll") /\ (PollRefused(E.c) \/ PollStutter(E.c) \/ PollDone(E.c, E.limit)) /\ Matches(ev', E)
 TComplete == Is("complete") /\ Complete(E.c, E.out) /\ Matches(ev', E)
 TDrop == Is("drop") /\ Drop(E.c) /\ Matches(ev', E)
-TProbe == Is("op") /\ E.name = "probe" /\ Probe /\ Matches(ev', E)
+TProbe == Is("op") /\ E.name = "probe" /\ Probe(E.svc) /\ Matches(ev', E)
 TAdvance == Is("advance") /\ Advance(E.d) /\ Matches(ev', E)
 TNext == TReset \/ TCreate \/ TPoll \/ TComplete \/ TDrop \/ TProbe \/ TAdvance
 Accepted ==
